@@ -20,13 +20,15 @@ func init() {
 			"C09.c ORD: in Sink.Close every file operation targets the temporary directory and precedes the single publishing Rename(tmp, final), which is reached only after the inner sink closed without error and the metadata was written and synced. " +
 			"C09.d DOM: Sink.Write accepts an incremental header (records its WAL directory) only on the edge where the store's DueNext() is not Full. " +
 			"C09.e WHO+DOM: SetDueNext(Incremental) is called only from Sink.Close, after the publishing rename succeeded; SetDueNext(Full) is called only from the reviewed sites {fsmApply (load), ReadFrom (boot), fsmSnapshot (last-modified error, failed-persist release)}. " +
-			"C09.f TAINT (dependence): in SnapshotSet.ResolveFiles the database file returned is data-dependent on the position of the requested snapshot, and the full snapshot is searched downwards from that position (nearest preceding full) — not chosen independently of the request.",
+			"C09.f TAINT (dependence): in SnapshotSet.ResolveFiles the database file returned is data-dependent on the position of the requested snapshot, and the full snapshot is searched downwards from that position (nearest preceding full) — not chosen independently of the request. " +
+			"C09.g CONST: Store.DueNext answers from the presence of the FULL_NEEDED file (it tests Store.fullNeededPath): the requirement survives a restart only there.",
 		NotCovered: []string{"model equivalence of the catalog over operation sequences", "crash points inside a single rename (filesystem atomicity is trusted)"},
 		Run:        runC09,
 	})
 }
 
 func runC09(c *core.Ctx) {
+	c09g(c)
 	c09Resolve(c)
 	full := snapshotTypeConst(c, "Full")
 	incr := snapshotTypeConst(c, "Incremental")
